@@ -57,7 +57,7 @@ DT_KERNELS["TzObjKernels"] = dict(imports=["DateutilVerif.Model.ObjPy", "Dateuti
 
 # "RfcPy" kernel (harness/translate_rfc.py): tzical._parse_rfc (unfolding loop, line loop, whole function)
 import translate_rfc as TRFC
-DT_KERNELS["TzRfcKernels"] = dict(imports=["DateutilVerif.Model.RfcPy", "DateutilVerif.Generated.TzObjKernels"], groups=TRFC.RFC_GROUPS, translate=TRFC.translate_files)
+DT_KERNELS["TzRfcKernels"] = dict(imports=["DateutilVerif.Model.RfcPy", "DateutilVerif.Model.Factory", "DateutilVerif.Generated.TzObjKernels"], groups=TRFC.RFC_GROUPS, translate=TRFC.translate_files)
 # "TzifPy" kernel (harness/translate_tzif.py): tzfile._read_tzfile, the TZif decoder and builder of the zone data (C06)
 import translate_tzif as TZF
 DT_KERNELS["TzifKernels"] = dict(imports=["DateutilVerif.Model.TzifPy"], groups=None, translate=TZF.translate_files)
